@@ -269,12 +269,26 @@ def run(repo: Repo, chk: Check, thorough: bool = False) -> None:
                        'href value is constant / option / own object / guarded url' if not bad else
                        f'href built by hand from another object\'s name or url ({", ".join(bad)}) outside linker.taglink', loc)
     # the failing branch of taglink returns a non-link
+    # (on the CFG, so that `if not o.isVisible: return X` and `if o.isVisible: ... else: ...` are the same thing): from the false edge of the
+    # visibility test no construction with an href is reachable, and the function still returns something (every return has a value)
     rets = [n for n in taglink.walk() if isinstance(n, ast.Return)]
-    ifs = [s for s in taglink.node.body if isinstance(s, ast.If) and
-           implies_attr(s.test, False, taglink.params()[0].arg, 'isVisible')]
-    ok = bool(ifs) and all(isinstance(s.body[-1], ast.Return) and
-                           not any(isinstance(k, ast.keyword) and k.arg == 'href' for k in ast.walk(s.body[-1]))
-                           for s in ifs)
+    cft = CFG(taglink)
+    o_ = taglink.params()[0].arg
+    def _plain_vis(t: ast.AST) -> Optional[bool]:
+        """polarity of the edge on which `o.isVisible` is FALSE, for a test that is exactly the attribute or its negation"""
+        neg = False
+        while isinstance(t, ast.UnaryOp) and isinstance(t.op, ast.Not):
+            t, neg = t.operand, not neg
+        if isinstance(t, ast.Attribute) and t.attr == 'isVisible' and isinstance(t.value, ast.Name) and t.value.id == o_:
+            return neg          # `if o.isVisible`: hidden on the False edge; `if not o.isVisible`: hidden on the True edge
+        return None
+    hrefs = [cft.stmt_of(c) for c in calls_in(taglink) if any(k.arg == 'href' for k in c.keywords)]
+    reach_h: Set[int] = set()
+    for nid, edges in cft.succ.items():
+        for (t, l, k) in edges:
+            if l is not None and _plain_vis(l[0]) is not None and l[1] == _plain_vis(l[0]):
+                reach_h |= cft.reachable(t, no_exc=True)
+    ok = bool(reach_h) and not any(id(h) in reach_h for h in hrefs) and bool(rets) and all(r.value is not None for r in rets) and id(cft.EXIT) in reach_h
     chk.ob('R12.1', 'pydoctor.linker.taglink :: hidden target yields a non-link', ok,
            'the hidden-target branch returns a tag without href' if ok else
            'no early return of a non-link for hidden targets in taglink', taglink.loc)
@@ -617,6 +631,15 @@ def _use_ok(repo: Repo, f: Func, ug: UseGuard, u: ast.Name, var: str, guarding: 
         return 'None test'
     if ug.in_test(u, var):
         return 'visibility test'
+    # a pure filter: the object is only looked at in the test of an `if` whose whole body leaves the iteration (`if sc.system is not host: continue`) -
+    # nothing is listed there; what the loop goes on to do with the object is judged at those uses
+    st_: ast.AST = u
+    while getattr(st_, '_parent', None) is not None and not isinstance(st_, ast.stmt):
+        prev_ = st_
+        st_ = st_._parent  # type: ignore[attr-defined]
+        if isinstance(st_, ast.If) and prev_ is st_.test and st_.body and isinstance(st_.body[-1], (ast.Continue, ast.Break)) and \
+                all(isinstance(b, (ast.Continue, ast.Break, ast.Pass)) for b in st_.body) and not st_.orelse:
+            return 'filter test that leaves the iteration'
     if ug.guarded(u, var):
         return 'dominated by a visibility test'
     # argument of a function that starts with the visibility guard on that parameter
